@@ -674,6 +674,40 @@ def _rest_r11e(ctx, repo, m, meths, ip):
                             'longer reproduce the input' % (q_, unparse(x_)), construct='%s: %s' % (q_, unparse(x_)))
     ctx.holds('R11j', m, None, 'no read of <parsing state>.s in the token reader', construct='parsing_state.s scan', trivial=True)
 
+    # ---- R11k: look-ahead in the source string is in range
+    ctx.rule('R11k', 'the token reader indexes its string beyond the current position (s[pos+k], k >= 1) only where a test on '
+                     'that index against len(s) holds on the path: at the end of the input a look-ahead otherwise raises '
+                     'IndexError, and the tokens no longer account for the input', 1)
+    n_la = 0
+    from ..grules import short_circuit_facts as _scf
+    for q_, f_ in sorted(m.functions.items()):
+        if not q_.startswith('LatexTokenReader.'):
+            continue
+        for x_ in ast.walk(f_):
+            if not (isinstance(x_, ast.Subscript) and isinstance(x_.value, ast.Name) and x_.value.id == 's'
+                    and isinstance(x_.ctx, ast.Load) and not isinstance(x_.slice, ast.Slice)):
+                continue
+            idx = x_.slice
+            if not (isinstance(idx, ast.BinOp) and isinstance(idx.op, ast.Add) and isinstance(idx.right, ast.Constant)
+                    and isinstance(idx.right.value, int) and idx.right.value >= 1):
+                continue
+            n_la += 1
+            itxt, base, k = unparse(idx), unparse(idx.left), idx.right.value
+            facts = set()
+            for t_, p_ in list(atomic_facts(x_)) + list(_scf(x_)):
+                for a_, ap_ in symex._atoms(t_, p_):
+                    facts.add((unparse(a_), ap_))
+            want = [('%s < len(s)' % itxt, True), ('len(s) > %s' % itxt, True), ('%s >= len(s)' % itxt, False),
+                    ('len(s) <= %s' % itxt, False), ('%s < len(s) - %d' % (base, k), True),
+                    ('%s + %d <= len(s)' % (base, k + 1), True), ('%s + %d > len(s)' % (base, k + 1), False)]
+            ctx.decide('R11k', any(w_ in facts for w_ in want), m, x_, 'look-ahead %s under an in-range test' % unparse(x_),
+                       '%s reads %s with no test that %s < len(s) on the way (facts: %s): when the input ends right after '
+                       'position %s the reader raises IndexError instead of producing a token'
+                       % (q_, unparse(x_), itxt, sorted(t_ for t_, p_ in facts if p_)[:3], base),
+                       construct='%s: %s' % (q_, unparse(x_)))
+    if not n_la:
+        ctx.unknown('R11k', m, None, 'no look-ahead found in the token reader', construct='look-ahead scan')
+
     return 'other', (
         'Decides, at every token construction site, that the token has positive width and carries '
         'the peeked whitespace unchanged with positions recomputed consistently; an effect analysis '
